@@ -56,6 +56,18 @@ def make_reply(rc, seq, arg1=0, arg2=0, arg3=0, data=b"", n_args=3):
     return hdr + body + bytes(data)
 
 
+def cmd_fields(cid):
+    """The test command with identity cid (carried in arg1): destination, command code and data vary with it."""
+    return dict(x=cid % 7, y=cid % 5, p=cid % 17, cmd=2 + cid % 2, arg1=cid, arg2=(cid * 7919) & 0xffffffff,
+                arg3=cid % 3, data=bytes(bytearray((cid + i) & 0xff for i in range(cid % 6))))
+
+
+def make_request(f, seq):
+    """The datagram a host sends for command fields f (reply expected, tag 0xff, from port 7 / cpu 31)."""
+    hdr = struct.pack("<2x8B", 0x87, 0xff, f["p"] & 0x1f, (7 << 5) | 31, f["y"], f["x"], 0, 0)
+    return hdr + struct.pack("<2H3I", f["cmd"], seq, f["arg1"], f["arg2"], f["arg3"]) + f["data"]
+
+
 # ------------------------------------------------------------------------------------------ fakes
 class _BlockingIOError(BlockingIOError):
     pass
